@@ -84,7 +84,9 @@ def extract(cfg="dev", force=False):
     if not os.path.isdir(os.path.join(repo, "src")):
         raise InfraError("no repository at %s" % repo)
     os.makedirs(CACHE, exist_ok=True)
-    lock = open(os.path.join(CACHE, "extract-%s.lock" % cfg), "w")
+    # one extraction at a time per (configuration, repository path): different scratch copies do not wait for each other
+    tag0 = hashlib.sha256(os.path.abspath(repo).encode()).hexdigest()[:8]
+    lock = open(os.path.join(CACHE, "extract-%s-%s.lock" % (cfg, tag0)), "w")
     fcntl.flock(lock, fcntl.LOCK_EX)
     try:
         # the driver is rebuilt when its source changed, and facts written by an older driver are not reused
@@ -92,9 +94,16 @@ def extract(cfg="dev", force=False):
         dkey = hashlib.sha256(open(dsrc, "rb").read()).hexdigest()[:12]
         dstamp = os.path.join(CACHE, "driver.key")
         if not os.path.exists(DRIVER) or not os.path.exists(dstamp) or open(dstamp).read().strip() != dkey:
-            build_driver()
-            with open(dstamp, "w") as fh:
-                fh.write(dkey)
+            dlock = open(os.path.join(CACHE, "driver.lock"), "w")
+            fcntl.flock(dlock, fcntl.LOCK_EX)
+            try:
+                if not os.path.exists(DRIVER) or not os.path.exists(dstamp) or open(dstamp).read().strip() != dkey:
+                    build_driver()
+                    with open(dstamp, "w") as fh:
+                        fh.write(dkey)
+            finally:
+                fcntl.flock(dlock, fcntl.LOCK_UN)
+                dlock.close()
         key = _hash_tree(repo) + ":" + dkey
         tag = hashlib.sha256(os.path.abspath(repo).encode()).hexdigest()[:8]
         out_dir = os.path.join(CACHE, "facts", cfg + "-" + tag)
